@@ -8,6 +8,7 @@
 (* that binary floating point reproduces the exact rationals at any        *)
 (* length.  The recorder logs one line per                                 *)
 (*   reset      a new episode: fresh account, queue of `delay` null actions *)
+(*              (Box space: the flat allocation; Discrete menu: its entry 0)*)
 (*   quote      a quote delivered to the observers (after the exchange)    *)
 (*   submit     the action handed to step()                                *)
 (*   rebalance  Broker.rebalance as called by step(): the request it got   *)
@@ -73,7 +74,8 @@ Account(o, s, chk) ==
     \o Bad("cash", chk /\ o.cash # s.cash)
     \o Bad("nlv", o.nlv # Nlv(s))
 
-NullAlloc == <<>>
+\* what the null action of the space denotes: nothing for a Box space, entry 0 of the menu for a Discrete one (whatever it is)
+NullAlloc(t) == [c \in DOMAIN Traces[t].null |-> Traces[t].null[c]]
 Req(o, a) == [alloc |-> a, measure |-> "lots", thr |-> o.thr, fractional |-> o.fractional, absolute |-> TRUE]
 SameAlloc(a, b) == DOMAIN a = DOMAIN b /\ \A c \in DOMAIN a : a[c] = b[c]
 
@@ -90,7 +92,7 @@ Step ==
        IN
        CASE o.op = "reset" ->
               /\ st' = InitLedger
-              /\ queue' = [i \in 1..Traces[tid].delay |-> NullAlloc]
+              /\ queue' = [i \in 1..Traces[tid].delay |-> NullAlloc(tid)]
               /\ lastPre' = NaN /\ nEntries' = 0 /\ phase' = "idle" /\ idx' = o.start + 1
               /\ verdict' = <<>>
          [] o.op = "quote" ->
